@@ -447,6 +447,9 @@ PROPS["C11"]["claim"] += (" FILE LEVEL (top_down_at_file_level, binding_evaluate
     "the effect of the first statements of a file is independent of what follows; a binding is evaluated once in the scope of the lines before it; "
     "after `subninja` the including file keeps its scope; after `include` it continues with afterInclude ie (its own scope in n2 = finding F12, the "
     "included file's final scope in the specification).")
+PROPS["C14"]["claim"] += (" STATEMENT LEVEL (duplicate_output_statement_is_rejected): once a build statement's paths are evaluated and interned, an output "
+    "that an earlier statement (of any file of the manifest tree: the graph is shared) already produces makes Loader::add_build fail whatever else the "
+    "statement says; with C10's file-level theorem the whole load fails.")
 PROPS["C09"]["claim"] += (" ACROSS INVOCATIONS, FOR EVERY LOG (Lemmas/WorkDisc): start-up (applyLog, records WITH dependency lists) only interns source "
     "files and attaches to each step exactly the dependency list and signature of the LATEST record attributed to it "
     "(remembered_by_every_later_invocation, nothing_remembered_without_record); a success's record is the latest until the next one "
